@@ -1,4 +1,4 @@
-"""X05 (extension) -- attribute protocols of Source and ConvolvedFluxes (spec/ObjProto.tla): every history of MaxOps setter calls
+"""X05 (extension) -- attribute protocols of Source, ConvolvedFluxes and SED (spec/ObjProto.tla): every history of MaxOps setter calls
 over the value menus is replayed on a real object; the outcome of every call (accepted / which exception class) and the final
 state are compared."""
 import os
@@ -36,6 +36,22 @@ def conv_value(attr, val):
     shape = tuple(val['s'])
     a = np.arange(int(np.prod(shape)), dtype=float).reshape(shape) + 1.0
     return {'arr': a * u.mJy, 'oned': a * u.mJy, 'bare': a, 'wrongtype': a * u.s}[k]
+
+
+def sed_value(attr, val):
+    from astropy import units as u
+    k = val['k']
+    if k == 'none':
+        return None
+    if attr in ('wav', 'nu'):
+        a = np.linspace(1.0, 2.0, val['n'])
+        good = u.micron if attr == 'wav' else u.THz
+        return a * good if k == 'seq' else (a if k == 'bare' else a * (u.s if attr == 'wav' else u.m))
+    if attr == 'apertures':
+        return conv_value('apertures', val)
+    shape = tuple(val['s'])
+    a = np.arange(int(np.prod(shape)), dtype=float).reshape(shape) + 1.0
+    return {'arr': a * u.mJy, 'oned': a * u.mJy, 'bare': a}[k]
 
 
 def outcome(fn):
@@ -78,6 +94,24 @@ def replay_chunk(behs):
                 if got != want or s.n_wav != nw or (s.valid is not None and int(s.n_data) != st['n_data']):
                     bad = 'final state valid/flux/error %r n_wav %r n_data %r, spec %r n_wav %r n_data %r' % (
                         got, s.n_wav, None if s.valid is None else int(s.n_data), want, nw, st['n_data'])
+        elif b['kind'] == 'sed':
+            from sedfitter.sed import SED
+            sd = SED()
+            for i, h in enumerate(b['hist']):
+                o = outcome(lambda: setattr(sd, h['attr'], sed_value(h['attr'], h['val'])))
+                if (o == 'ok') != (h['out'] == 'ok'):
+                    bad = 'call %d: SED.%s = <%s %r> %s, spec: %s' % (i + 1, h['attr'], h['val']['k'], h['val'].get('s', h['val'].get('n')),
+                                                                    'accepted' if o == 'ok' else 'raised ' + o, h['out'])
+                    break
+                if o != h['out']:
+                    col.extra['exception_class_differs'] = col.extra.get('exception_class_differs', 0) + 1
+            if not bad:
+                st = b['sed']
+                got = {'wav_len': -1 if sd.wav is None else len(sd.wav), 'nu_len': -1 if sd.nu is None else len(sd.nu), 'n_ap': int(sd.n_ap),
+                       'apertures_none': sd.apertures is None, 'flux': [] if sd.flux is None else list(sd.flux.shape)}
+                want = {'wav_len': st['wav_len'], 'nu_len': st['nu_len'], 'n_ap': st['n_ap'], 'apertures_none': bool(st['apertures_none']), 'flux': list(st['flux'])}
+                if got != want:
+                    bad = 'final state %r, spec %r' % (got, want)
         else:
             c = ConvolvedFluxes()
             for i, h in enumerate(b['hist']):
@@ -107,7 +141,7 @@ def run(ctx):
     cfg = ctx.tmp('MC_ObjProto_run.cfg')
     with open(cfg, 'w') as f:
         f.write('SPECIFICATION Spec\nCONSTANTS\n  MaxOps = %d\nINVARIANT LengthsAgree\nINVARIANT FlagsLegal\nINVARIANT SourceAcceptance\n'
-                'INVARIANT FluxNeedsNames\nINVARIANT EmitInv\nPROPERTY RefusedIsNoop\nPROPERTY ShapeConsistentUnlessDimsReset\nCHECK_DEADLOCK FALSE\n' % (3 if q else 4))
+                'INVARIANT FluxNeedsNames\nINVARIANT AxisLengthsAgree\nINVARIANT SedFluxNeedsAxis\nINVARIANT EmitInv\nPROPERTY RefusedIsNoop\nPROPERTY ShapeConsistentUnlessDimsReset\nCHECK_DEADLOCK FALSE\n' % (3 if q else 4))
     res = model_check(ctx, 'ObjProto', cfg, timeout=2400, coverage=False)
     em = [b for b in res['emitted'] if isinstance(b, dict) and 'hist' in b]
     if not em:
@@ -115,9 +149,9 @@ def run(ctx):
     # the two named behaviours must be REACHABLE (otherwise the spec describes them vacuously)
     r2 = run_tlc(ctx, 'ObjProto', 'MC_ObjProto_reach.cfg', timeout=600, coverage=False, extra=['-continue'], workers=4)
     out = r2['out']
-    if 'Invariant NeverSelfBlocked is violated' not in out or 'Invariant ShapeConsistent is violated' not in out:
+    if any('Invariant %s is violated' % i_ not in out for i_ in ('NeverSelfBlocked', 'ShapeConsistent', 'SedNeverSelfBlocked')):
         raise MachineryError('named behaviours SelfBlocking / ShapeCanGoStale are not reachable in the model')
-    ctx.notes['mc_constants'] = 'every history of %d setter calls: Source valid x 11 values, flux/error x 7; ConvolvedFluxes model_names x 4, apertures x 5, flux/error x 8' % (3 if q else 4)
+    ctx.notes['mc_constants'] = 'every history of %d setter calls: Source valid x 11 values, flux/error x 7; ConvolvedFluxes model_names x 4, apertures x 5, flux/error x 8; SED wav/nu x 5, apertures x 5, flux x 7' % (3 if q else 4)
     ctx.notes['behaviours_emitted'] = len(em)
     ctx.notes['named_behaviours_reachable'] = ['SelfBlocking', 'ShapeCanGoStale']
     ctx.sample({'behaviour': em[len(em) // 2]})
